@@ -68,6 +68,11 @@ impl<'a, T: Read + Write + Seek> PointCloudWriter<'a, T> {
         // Make sure the prototype is not invalid or incomplete
         Self::validate_prototype(&prototype)?;
 
+        // A prototype where every record has a bit size of zero cannot be stored in data packets
+        if prototype.iter().all(|p| p.data_type.bit_size() == 0) {
+            Error::invalid("The prototype needs at least one record with a non-zero bit size")?
+        }
+
         // Calculate max number of points per packet
         let max_points_per_packet = get_max_packet_points(&prototype);
 
